@@ -69,7 +69,7 @@ CLAIMS = {
          "buffer released, that very error/payload returned, no later call) and C09_no_memory_error, for all lengths, converters "
          "and failure positions. Side scripts: zero-size and plain-data inputs, conversion run inside a destructor during unwinding.", "4 C09", V_NOTE, "Lean 4 refinement theorem + correspondence with drop ledger and counting allocator"),
  "C10": ("C10_refuse / C10_accept: layouts differing in size or alignment are refused before any element is read or the converter "
-         "called, the input dropped normally; equal layouts never refused.", "4 C10", V_NOTE, "Lean 4 theorem + correspondence over a type-pair matrix"),
+         "called, the input dropped normally; equal layouts never refused; C10_refusal_depends_on_layouts_only (not on converter or input); C10_variants_never_refused (record types of two variants of one definition are always accepted).", "4 C10", V_NOTE, "Lean 4 theorem + correspondence over a type-pair matrix"),
  "C04": ("Translated primitives (regenerated from data.rs each run): C04_store_permission (stores and &mut through as_mut_ptr on &mut self, all "
          "use the offset), C04_primitives_are_plain_accesses (each primitive is one recognised access of its kind); byte-level machine theorems C04_store_load / C04_store_frame; program-level theorems on the abstract machine running the "
          "generator model's programs: C04_new_get (every getter after the generated constructor returns the stored value), C04_new_unpack, "
